@@ -1261,14 +1261,18 @@ class FileStorage(
                 with self._lock:
                     self._files.empty()
                     self._file.close()
+                    # Keep the old file under the .old name without ever
+                    # leaving the data file's own name unbound: a crash
+                    # between two renames would leave no data file at all,
+                    # and the next open would create an empty database.
                     try:
-                        os.rename(self._file_name, oldpath)
+                        link_or_copy(self._file_name, oldpath)
                     except Exception:
                         self._file = open(self._file_name, 'r+b')
                         raise
 
                     # OK, we're beyond the point of no return
-                    os.rename(self._file_name + '.pack', self._file_name)
+                    os.replace(self._file_name + '.pack', self._file_name)
                     self._file = open(self._file_name, 'r+b')
                     self._initIndex(index, self._tindex)
                     self._pos = opos
